@@ -162,26 +162,28 @@ theorem attr_PB : PB (.cat (.alt attrDescr attrOid) attrOptions) 2 :=
   PB.cat_munch (startsIn cSemi) (PB.alt attrDescr_PB attrOid_PB (g := 2)) (RP.alt attrDescr_RP attrOid_RP (g := 2))
     (Sparse.alt attrDescr_sparse attrOid_sparse) attrOptions_cheap attrOptions_PB
 
-/-! ### NOIDLEN_MATCH -/
+/-! ### NOIDLEN_MATCH
 
-/-- `(\.(NUMBER))` -/
-def noidDotNumber : Re := .group 3 (.cat (.cls cDot) (.group 4 number))
-/-- `(\.(NUMBER))+` -/
+The translator drops capturing groups, so the generated term contains no `group` nodes. -/
+
+/-- `\.NUMBER` -/
+def noidDotNumber : Re := .cat (.cls cDot) number
+/-- `(\.NUMBER)+` -/
 def noidDotNumbers : Re := .cat noidDotNumber (.star noidDotNumber)
-/-- `(?P<value>(NUMBER)(\.(NUMBER))+)` -/
-def noidOid : Re := .group 1 (.cat (.group 2 number) noidDotNumbers)
-/-- `\{(?P<len>(NUMBER))\}` -/
-def noidLen : Re := .cat (.cls cLbrace) (.cat (.group 5 (.group 6 number)) (.cls cRbrace))
+/-- `NUMBER(\.NUMBER)+` -/
+def noidOid : Re := .cat number noidDotNumbers
+/-- `\{NUMBER\}` -/
+def noidLen : Re := .cat (.cls cLbrace) (.cat number (.cls cRbrace))
 
 /-- the generated term is the composition of the named parts -/
 theorem noid_eq : Regexes.schema_NOIDLEN_MATCH = .cat noidOid noidLen := rfl
 
-theorem noidDotNumber_dead : Dead noidDotNumber (startsIn cDot) := (Dead.cat (Dead.cls cDot) _).group 3
+theorem noidDotNumber_dead : Dead noidDotNumber (startsIn cDot) := Dead.cat (Dead.cls cDot) _
 theorem noidDotNumber_dead' : Dead noidDotNumber noDigit := noidDotNumber_dead.mono digit_dot.not_false
-theorem noidDotNumber_PB : PB noidDotNumber 1 := (PB.cat PB.cls RP.cls number_PB.group).group
+theorem noidDotNumber_PB : PB noidDotNumber 1 := PB.cat PB.cls RP.cls number_PB
 theorem noidDotNumber_RP : RP noidDotNumber 1 := RP.of_PB noidDotNumber_PB
 theorem noidDotNumber_sparse1 : Sparse1 noidDotNumber noDigit :=
-  (Sparse1.cat (runs_cls_length_le _) (number_sparse1.group 4)).group 3
+  Sparse1.cat (runs_cls_length_le _) number_sparse1
 
 theorem noidDotNumberStar_PB : PB (.star noidDotNumber) 2 :=
   PB.star_chain noDigit noidDotNumber_dead' noidDotNumber_sparse1 noidDotNumber_PB noidDotNumber_RP
@@ -202,19 +204,18 @@ theorem noidDotNumbers_sparse : Sparse noidDotNumbers (startsIn cLbrace) :=
       digit_dot.symm.starts_not digit_lbrace.symm.starts_not lbrace_dot.starts).sparse
 
 theorem noidOid_PB : PB noidOid 2 :=
-  (PB.cat_munch noDigit number_PB.group number_RP.group (number_sparse1.sparse.group 2)
-    (Cheap.of_Dead noidDotNumbers_dead) noidDotNumbers_PB (g := 2)).group
+  PB.cat_munch noDigit number_PB number_RP number_sparse1.sparse
+    (Cheap.of_Dead noidDotNumbers_dead) noidDotNumbers_PB (g := 2)
 theorem noidOid_RP : RP noidOid 2 :=
-  (RP.cat_munch noDigit number_RP.group (number_sparse1.sparse.group 2)
-    (Cheap.of_Dead noidDotNumbers_dead) noidDotNumbers_RP (g := 2)).group
+  RP.cat_munch noDigit number_RP number_sparse1.sparse
+    (Cheap.of_Dead noidDotNumbers_dead) noidDotNumbers_RP (g := 2)
 theorem noidOid_sparse : Sparse noidOid (startsIn cLbrace) :=
-  (Sparse.cat_munch noDigit (number_sparse1.sparse.group 2) (pass_of_Dead noidDotNumbers_dead _)
-    noidDotNumbers_sparse).group 1
+  Sparse.cat_munch noDigit number_sparse1.sparse (pass_of_Dead noidDotNumbers_dead _)
+    noidDotNumbers_sparse
 
 theorem noidLen_dead : Dead noidLen (startsIn cLbrace) := Dead.cat (Dead.cls cLbrace) _
 theorem noidLen_PB : PB noidLen 1 :=
-  PB.cat PB.cls RP.cls
-    (PB.cat number_PB.group.group number_RP.group.group PB.cls (g := 1))
+  PB.cat PB.cls RP.cls (PB.cat number_PB number_RP PB.cls (g := 1))
 
 theorem noid_PB : PB (.cat noidOid noidLen) 2 :=
   PB.cat_munch (startsIn cLbrace) noidOid_PB noidOid_RP noidOid_sparse (Cheap.of_Dead noidLen_dead) noidLen_PB
